@@ -42,20 +42,35 @@ class C05(Check):
                    'the differential and Kissel-total theorems carry hW: wherever a form-factor, scattering-function or Kissel table exists the element has an atomic weight '
                    '(six functions divide by AtomicWeight without testing it; latent: Spec.weightFailures is executed on the tables of every run and must be empty; the full statements are refuted on a synthetic table by *_full_fails)']
 
+    def table_ends(self, ctx):
+        """first / last knot (keV) of the photo, Rayleigh and Compton tables of every element, from the dumped tables"""
+        if not hasattr(ctx, '_c05ends'):
+            req = ['vec %s %d' % (t, Z) for Z in range(1, 121) for t in ('E_Photo_arr', 'E_Rayl_arr', 'E_Compt_arr')]
+            out = ctx.run_model(req); ends = {}
+            for r_, o in zip(req, out):
+                v = [unhx(x) for x in o.split(' ')[1:] if x]
+                if len(v) >= 2: ends.setdefault(int(r_.split(' ')[2]), []).extend([math.exp(v[0]) / 1000.0, math.exp(v[-1]) / 1000.0])
+            ctx._c05ends = ends
+        return ctx._c05ends
+
     def energies(self, ctx, Z):
         r = ctx.rng
         base = [0.0, -1.0, 0.5, 1.0, 1.0001, 5.0, 8.979, 20.0, 88.0, 100.0, 799.9, 800.0, 800.03, 1000.0, 1e6]
-        return base + [math.exp(r.uniform(math.log(0.9), math.log(900))) for _ in range(4 if ctx.tier == 'quick' else 40)]
+        # both sides of every end of each component table, and the middle of every window between ends that differ
+        # (a part undefined there while the others are defined: the aggregate must fail, not return a partial sum)
+        ends = sorted(set(self.table_ends(ctx).get(Z, [])))
+        edge = [e * f for e in ends for f in (1 - 1e-7, 1 + 1e-7)] + [(a * b) ** 0.5 for a, b in zip(ends, ends[1:]) if b > a * (1 + 1e-9)]
+        return base + edge + [math.exp(r.uniform(math.log(0.9), math.log(900))) for _ in range(4 if ctx.tier == 'quick' else 40)]
 
     def cases(self, ctx):
         if hasattr(ctx, '_c05'): return ctx._c05
         out = []
-        thetas = [0.0, 0.3, math.pi / 2, math.pi, -0.7, 7.0]
+        thetas = [0.0, 0.3, math.pi / 2, 1e-4, math.pi, 2e-8, 1e-6, math.pi - 1e-6, -0.7, 7.0]     # incl. near-forward / near-backward
         phis = [0.0, 1.0, math.pi / 2]
         for Z in list(range(-1, 123)):
             for E in self.energies(ctx, Z):
                 for fn in ID_ZE: out.append((ID_ZE, fn, (Z,), (E,)))
-                for th in thetas[: (3 if ctx.tier == 'quick' else 6)]:
+                for th in (thetas[:4] + [ctx.rng.choice(thetas[4:])] if ctx.tier == 'quick' else thetas):
                     for fn in ID_ZET: out.append((ID_ZET, fn, (Z,), (E, th)))
                     for ph in phis[: (1 if ctx.tier == 'quick' else 3)]:
                         for fn in ID_ZETP: out.append((ID_ZETP, fn, (Z,), (E, th, ph)))
